@@ -1082,3 +1082,82 @@ def knn_obligation_source():
             "       countIn m (hcat Y Z) (t.2.1 ++ t.2.2) (radius m k (hcat (hcat X Y) Z) (t.1 ++ t.2.1 ++ t.2.2)),\n"
             "       countIn m Z t.2.2 (radius m k (hcat (hcat X Y) Z) (t.1 ++ t.2.1 ++ t.2.2))))) := by\n"
             "  intro ψ m k X Y Z\n  first\n    | rfl\n    | (simp only [knnCMIψ, Generated.knnCMI, List.map_map, Function.comp_def]; done)\n    | (simp only [knnCMIψ, Generated.knnCMI, List.map_map, Function.comp_def]; first | rfl | ring1)\n")
+
+
+# ------------------------------------------------------------------ C01 lagged design: slice arithmetic and labelling read off the source
+
+def lagged_obligation_source():
+    """The construction of the lagged predictor matrix in `discover_network`: loop nest (variable outer, lag inner, lag from 1 to
+    max_lag), the slice `series[lo:hi, j]` of each column, the label appended with it, the target slice, and the same for the
+    own-history block of the standard variant -- read off the CURRENT source. The slice bounds become Lean terms over Rat and must
+    say, for ALL max_lag, tau, T and rows r: row r of the column is the series at time (max_lag + r) - tau, target row r is time
+    max_lag + r, both have T - max_lag rows (the model's `lagged_entry`)."""
+    from pyexpr import Sym, Untranslatable as U
+    fn = _funcs(_parse(DISC)).get("discover_network")
+    if fn is None:
+        raise Untranslatable("discover_network not found")
+
+    def slice_terms(sub, series, colvar, env):
+        """series[lo:hi, colvar] -> (lo, hi) Lean terms"""
+        if not (isinstance(sub, ast.Subscript) and isinstance(sub.value, ast.Name) and sub.value.id == series and isinstance(sub.slice, ast.Tuple) and len(sub.slice.elts) == 2):
+            raise Untranslatable(f"column expression {ast.unparse(sub)[:50]}")
+        sl, col = sub.slice.elts
+        if not (isinstance(sl, ast.Slice) and sl.step is None and sl.lower is not None and sl.upper is not None and isinstance(col, ast.Name) and col.id == colvar):
+            raise Untranslatable(f"column slice {ast.unparse(sub)[:50]}")
+        sym = Sym(env)
+        try:
+            return sym.ev(sl.lower)[1], sym.ev(sl.upper)[1]
+        except U as e:
+            raise Untranslatable(str(e))
+
+    outer = [st for st in fn.body if isinstance(st, ast.For) and len(st.body) == 1 and isinstance(st.body[0], ast.For)]
+    if len(outer) != 1:
+        raise Untranslatable("nested construction loop not found")
+    lo_, li_ = outer[0], outer[0].body[0]
+    if ast.unparse(lo_.iter) != "range(n)" or ast.unparse(li_.iter) != "range(1, max_lag + 1)" or not (isinstance(lo_.target, ast.Name) and isinstance(li_.target, ast.Name)):
+        raise Untranslatable("loop ranges of the lagged design")
+    j, tau = lo_.target.id, li_.target.id
+    env = {"max_lag": ("scal", "L"), tau: ("scal", "τ"), "T": ("scal", "T")}
+    assigns = {st.targets[0].id: st.value for st in li_.body if isinstance(st, ast.Assign) and isinstance(st.targets[0], ast.Name)}
+    appends = [st.value for st in li_.body if isinstance(st, ast.Expr) and isinstance(st.value, ast.Call) and isinstance(st.value.func, ast.Attribute) and st.value.func.attr == "append"]
+    if len(appends) != 2:
+        raise Untranslatable("two appends expected in the construction loop")
+    colexpr = lab = None
+    for a in appends:
+        arg = a.args[0]
+        arg = assigns.get(arg.id, arg) if isinstance(arg, ast.Name) else arg
+        if isinstance(arg, ast.Tuple):
+            lab = [ast.unparse(e) for e in arg.elts]
+        else:
+            colexpr = arg
+    if colexpr is None or lab is None:
+        raise Untranslatable("column / label appends")
+    lo, hi = slice_terms(colexpr, "series", j, env)
+    ya = [st for st in fn.body if isinstance(st, ast.Assign) and ast.unparse(st.targets[0]) == "Y_all"]
+    if len(ya) != 1 or not (isinstance(ya[0].value, ast.Subscript) and ast.unparse(ya[0].value.value) == "series" and isinstance(ya[0].value.slice, ast.Tuple)
+                            and isinstance(ya[0].value.slice.elts[0], ast.Slice) and ya[0].value.slice.elts[0].upper is None and ya[0].value.slice.elts[0].step is None
+                            and ast.unparse(ya[0].value.slice.elts[1]) == ":"):
+        raise Untranslatable("target matrix is not series[<lo>:, :]")
+    try:
+        ylo = Sym(env).ev(ya[0].value.slice.elts[0].lower)[1]
+    except U as e:
+        raise Untranslatable(str(e))
+    # own-history block of the standard variant: for tau in range(1, max_lag + 1): Z_init.append(series[lo:hi, i])
+    zl = [n_ for n_ in ast.walk(fn) if isinstance(n_, ast.For) and n_ is not li_ and ast.unparse(n_.iter) == "range(1, max_lag + 1)" and len(n_.body) == 1
+          and isinstance(n_.body[0], ast.Expr) and isinstance(n_.body[0].value, ast.Call) and ast.unparse(n_.body[0].value.func) == "Z_init.append"]
+    if len(zl) != 1:
+        raise Untranslatable("own-history loop of the standard variant")
+    tgt_loops = [st for st in fn.body if isinstance(st, ast.For) and st is not lo_ and isinstance(st.target, ast.Name) and ast.unparse(st.iter) == "range(n)"]
+    if len(tgt_loops) != 1:
+        raise Untranslatable("target loop")
+    zlo, zhi = slice_terms(zl[0].body[0].value.args[0], "series", tgt_loops[0].target.id, {**env, zl[0].target.id: ("scal", "τ")})
+    return ("import CEModel.Discovery\nimport Mathlib.Tactic.Ring\n/-! GENERATED from /repo by harness/gen_tables.py -- do not edit. -/\nnamespace Generated\n"
+            f"def colLo (L τ T : Rat) : Rat := {lo}\ndef colHi (L τ T : Rat) : Rat := {hi}\ndef tgtLo (L : Rat) : Rat := {ylo}\n"
+            f"def ownLo (L τ T : Rat) : Rat := {zlo}\ndef ownHi (L τ T : Rat) : Rat := {zhi}\n"
+            f"def labelOrder : List String := {_llist(lab)}\ndef loopOrder : List String := {_llist([j, tau])}\nend Generated\n"
+            "/-- row r of a lagged column is the series at time (target time of row r) - tau; columns and targets have the same T - max_lag rows -/\n"
+            "example : ∀ L τ T r : Rat, Generated.colLo L τ T + r = (Generated.tgtLo L + r) - τ ∧ Generated.colHi L τ T - Generated.colLo L τ T = T - Generated.tgtLo L\n"
+            "    ∧ Generated.ownLo L τ T + r = (Generated.tgtLo L + r) - τ ∧ Generated.ownHi L τ T - Generated.ownLo L τ T = T - Generated.tgtLo L ∧ Generated.tgtLo L = L := by\n"
+            "  intro L τ T r; refine ⟨?_, ?_, ?_, ?_, ?_⟩ <;> simp only [Generated.colLo, Generated.colHi, Generated.tgtLo, Generated.ownLo, Generated.ownHi] <;> ring1\n"
+            "/-- variable outer, lag inner (ascending from 1): column id = j * max_lag + (tau - 1), the model's `colId`; the label appended is (variable, lag) -/\n"
+            "example : Generated.labelOrder = Generated.loopOrder := by decide\n")
